@@ -244,6 +244,10 @@ func c13Render(c *Ctx, p *Prog) {
 			c.Undecided(R, "FormatDelta", site, why)
 		} else {
 			n := 0
+			wrongGate := false
+			defer func() {
+				c.Check(!wrongGate, R, "FormatDelta:gate", site, "the significance gate shows '~' only when p exceeds the threshold", "the significance gate treats p equal to the threshold as not significant; a difference is shown exactly when p does not exceed the threshold")
+			}()
 			for _, o := range outs {
 				part := map[string]bool{}
 				bad := ""
@@ -254,6 +258,11 @@ func c13Render(c *Ctx, p *Prog) {
 						part["insig"] = v // Alpha < P
 					case s.Op == "binop" && s.Tok == token.LEQ && strings.Contains(s.Args[0].String(), ".P") && strings.Contains(s.Args[1].String(), ".Alpha"):
 						part["insig"] = !v
+					case s.Op == "binop" && (s.Tok == token.LEQ && strings.Contains(s.Args[0].String(), ".Alpha") && strings.Contains(s.Args[1].String(), ".P") ||
+						s.Tok == token.LSS && strings.Contains(s.Args[0].String(), ".P") && strings.Contains(s.Args[1].String(), ".Alpha")):
+						// Alpha <= P / P < Alpha: the gate puts p == alpha on the insignificant side
+						wrongGate = true
+						part["insig"] = v == (s.Tok == token.LEQ)
 					case s.Op == "binop" && s.Tok == token.EQL && s.String() == "(param:new == param:old)":
 						part["same"] = v
 					case s.Op == "binop" && s.Tok == token.EQL && s.Args[0].String() == "param:old" && s.Args[1].isConst():
